@@ -295,10 +295,12 @@ func (r RemoveIntersections) replacementOf(name string) (ast.Object, bool) {
 	return replacement, true
 }
 
-func (r RemoveIntersections) processStruct(_ *Visitor, _ *ast.Schema, def ast.Type) (ast.Type, error) {
+func (r RemoveIntersections) processStruct(_ *Visitor, schema *ast.Schema, def ast.Type) (ast.Type, error) {
 	str := def.AsStruct()
 	for i, field := range str.Fields {
-		if field.Type.IsRef() {
+		// what is removed from this schema is recorded by name: an object of another package
+		// that has the same name is not concerned
+		if field.Type.IsRef() && field.Type.AsRef().ReferredPkg == schema.Package {
 			// only the type of the field changes: the field stays required or not,
 			// nullable or not, and keeps its default.
 			retype := func(newType ast.Type) {
